@@ -6,7 +6,7 @@ INVS = ["Atomic", "ConnUsable", "NothingPendingAtRest"]
 DEFS = r'''
 Ids == 1..%(ids)d
 Scripts(n) == UNION {[1..k -> Ids] : k \in 0..n}
-Faults(len) == {[kind |-> "none", at |-> 0]} \cup [kind : {"err", "ctxerr", "panic", "cancel"}, at : 1..(len + 1)]
+Faults(len) == {[kind |-> "none", at |-> 0]} \cup [kind : {"err", "ctxerr", "txdone", "panic", "cancel"}, at : 1..(len + 1)]
 TxJobs(n) == UNION {{[k |-> "tx", ins |-> s, fault |-> f, onerr |-> o, pad |-> 0] : f \in Faults(Len(s)), o \in {"return", "ignore"}} : s \in Scripts(n)}
 BulkJobs(n) == {[k |-> "bulk", ins |-> s, fault |-> [kind |-> "none", at |-> 0], onerr |-> "return", pad |-> p] : s \in Scripts(n) \ {<<>>}, p \in {0, 1}}
 Second == {jb \in TxJobs(2) : jb.fault.kind \in {"none", "err"} /\ jb.onerr = "return"} \cup {jb \in BulkJobs(2) : jb.pad = 0}
